@@ -82,6 +82,9 @@ def run_scenario(item):
                 note('waiter_not_served' if name in waited else 'no_reply', client=name, end=rep.end, got=rep.brief())
             waited.discard(name)
             # every echo must carry one of the serials of this request and this client
+            if any('could not get connection from the pool' in (e.get('M') or '') for e in rep.errors):
+                # the design model says a connection is available for this client
+                note('waiter_refused', client=name, got=rep.brief())
             for e in rep.echoes():
                 ok = e.get('c') == name and e.get('n') in serials
                 w.log.add(ev='result', client=name, n=e.get('n') if ok else (serials[0] if serials else -1),
@@ -121,6 +124,9 @@ def run_scenario(item):
                 k = st['k']
                 if k == 'copydone':
                     c.send(W.CopyData(b'1\n') + W.CopyDone())
+                    outstanding[name] = [c.serial]
+                elif k == 'copyfail':
+                    c.send(W.CopyData(b'1\n') + W.CopyFail('client gave up'))
                     outstanding[name] = [c.serial]
                 else:
                     if k == 'set':
@@ -195,7 +201,7 @@ def run_scenario(item):
                     if rep.end != 'Z' or not rep.errors:
                         note('no_checkout_error', client=name, got=rep.brief())
             elif op == 'cancel':
-                c = clients[name]
+                c = clients[name]   # (a client that has gone keeps its object: the key stays known to the harness)
                 holds = prev_state.get('holds', {}).get(name, False) if prev_state else False
                 mark = w.log.mark()
                 variant = rng.choice(['valid', 'valid', 'valid', 'valid', 'random', 'wrong_secret'])
